@@ -317,6 +317,49 @@ theorem txsIn_rowsOf (S : List Block) (hS : Sorted S) (b : Block) (hb : b ∈ S)
       rw [if_neg hne, List.nil_append]
       exact ih hp.2 hb
 
+/-- in a table whose keys are all different a key names one row -/
+theorem key_unique : ∀ (T : List TxRow), (T.map (·.1)).Nodup → ∀ a ∈ T, ∀ b ∈ T, a.1 = b.1 → a = b := by
+  intro T
+  induction T with
+  | nil => simp
+  | cons x r ih =>
+    intro h a ha b hb hab
+    simp only [List.map_cons, List.nodup_cons, List.mem_map, not_exists, not_and] at h
+    simp only [List.mem_cons] at ha hb
+    rcases ha with rfl | ha <;> rcases hb with rfl | hb
+    · rfl
+    · exact absurd hab.symm (h.1 b hb)
+    · exact absurd hab (h.1 a ha)
+    · exact ih h.2 a ha b hb hab
+
+/-- **a re-included transaction is stored under its new block.** The store is a chain whose table
+holds the rows of its blocks; the node rolls back to slot `s` and then delivers the batch `bs` that
+extends what remains, a chain that carries no transaction twice — but `bs` MAY carry transactions of
+the blocks the roll-back removed. Every transaction `t` of a block `b'` of the batch is then stored
+under `b'` and under no other block, and the join gives `b'` exactly the transactions it carries. -/
+theorem reincluded_under_new_block (S : List Block) (T : List TxRow) (s : Nat) (bs : List Block)
+    (hS : Sorted S) (hT : TInv txsOf S T)
+    (hs : Sorted (rollback S s ++ bs)) (hF : TxFresh txsOf (rollback S s ++ bs))
+    (b' : Block) (hb' : b' ∈ bs) (t : Nat) (ht : t ∈ txsOf b'.hash) :
+    (t, b'.hash) ∈ applyOutT txsOf (rollback S s) (applyOutT txsOf S T (some (.backward s))) (some (.forwards bs)) ∧
+    (∀ r ∈ applyOutT txsOf (rollback S s) (applyOutT txsOf S T (some (.backward s))) (some (.forwards bs)),
+      r.1 = t → r.2 = b'.hash) ∧
+    txsIn (applyOutT txsOf (rollback S s) (applyOutT txsOf S T (some (.backward s))) (some (.forwards bs))) b'.hash
+      = txsOf b'.hash := by
+  have h1 := tinv_backward txsOf S T s hS hT
+  have h2 := tinv_forwards txsOf (rollback S s) bs _ hF h1
+  simp only [applyOutT]
+  unfold TInv at h2
+  rw [h2]
+  have hmem : b' ∈ rollback S s ++ bs := by simp [hb']
+  have hrow : (t, b'.hash) ∈ rowsOf txsOf (rollback S s ++ bs) := (mem_rowsOf txsOf).mpr ⟨b', hmem, rfl, ht⟩
+  refine ⟨hrow, ?_, txsIn_rowsOf txsOf _ hs b' hmem⟩
+  intro r hr hrt
+  have hk : ((rowsOf txsOf (rollback S s ++ bs)).map (·.1)).Nodup := by rw [rowsOf_keys]; exact hF
+  have := key_unique _ hk r hr (t, b'.hash) hrow hrt
+  rw [this]
+
+
 /-! ## the scan loop on blocks and transactions -/
 
 /-- `Import.run` with the transaction table -/
@@ -458,6 +501,37 @@ theorem runT_refines (c : Cfg) : ∀ (fuel : Nat) (lp : Option Nat) (S V : List 
           have hT' := tinv_applyOut txsOf c S (applyAll V pre) T (some o) hSs hfw h3
             (goodTx_fresh txsOf rest _ hGT') hT
           exact ih lp' _ _ _ rest h3 h4 hGT' hT'
+
+/-! ## the roots computed from the join are the roots of the stored blocks -/
+
+section
+variable {ρ : Type}
+
+/-- a root function reads the transactions of the blocks it is given, and nothing else -/
+def LocalRoot (R : (Nat → List Nat) → List Block → Option ρ) : Prop :=
+  ∀ (tx tx' : Nat → List Nat) (bs : List Block), (∀ b ∈ bs, tx b.hash = tx' b.hash) → R tx bs = R tx' bs
+
+/-- under the table invariant the range importer that reads the join `cardano_block ⋈ cardano_tx`
+computes what the theorems of `ImportRoots` are about: the roots of the stored blocks with the
+transactions they were delivered with -/
+theorem rootAt_join (R : (Nat → List Nat) → List Block → Option ρ) (hR : LocalRoot R) (S : List Block) (hS : Sorted S) (k : Nat) :
+    rootAt (R (txsIn (rowsOf txsOf S))) S k = rootAt (R txsOf) S k := by
+  unfold rootAt
+  rw [hR (txsIn (rowsOf txsOf S)) txsOf (blocksOf S k)]
+  intro b hb
+  exact txsIn_rowsOf txsOf S hS b (List.mem_filter.mp hb).1
+
+theorem rangesRun_join (R : (Nat → List Nat) → List Block → Option ρ) (hR : LocalRoot R) (S : List Block) (hS : Sorted S)
+    (roots : List (Nat × ρ)) (upTo : Nat) :
+    rangesRun (R (txsIn (rowsOf txsOf S))) S roots upTo = rangesRun (R txsOf) S roots upTo := by
+  unfold rangesRun
+  simp only
+  congr 1
+  apply filterMap_congr'
+  intro k _
+  exact rootAt_join txsOf R hR S hS k
+
+end
 
 /-! ## the cascade is necessary -/
 
